@@ -119,3 +119,27 @@ PROPS['C17'] = dict(
     trusted_base=['Amount / Position / Inventory API of Beancount (field names, get_currency_units, currencies)', 'DisplayFormatter.quantize is pure'],
     assumptions=[],
 )
+
+PROPS['C15'] = dict(
+    level='other', harness='h15', min_t1=0,
+    explanation='Bounded (T3) contract evaluation of Connection.execute with PIVOT BY against the reshaping defined by the statement (row per first key '
+                'ascending, block per second key ascending, naming, datatypes, NULL fill, un-pivot identity) on full / sparse / duplicate / single / '
+                'empty tables with the pivot columns in every target position, by name and by position; invalid references are covered by C05.',
+    trusted_base=[], assumptions=['pivot key values are non-NULL and mutually comparable (the statement: grouped by exactly the two pivot columns)'],
+)
+
+PROPS['C11'] = dict(
+    level='other', harness='h11', min_t1=2,
+    explanation='T1: the NULL-strict getitem / getter node classes (shared with C01). Bounded (T3): every column of every ledger table, and the metadata / '
+                'open / commodity functions, against a direct traversal of the directives on generated ledgers. Column accessor contracts (T1) are listed '
+                'in the evidence as they are built.',
+    trusted_base=['Beancount data model (field names), hash_entry, get_weight, get_account_open_close, get_commodity_directives'], assumptions=[],
+)
+
+PROPS['C12'] = dict(
+    level='other', harness='h12', min_t1=3,
+    explanation='T1: aggregator initialize (zero of the type, frame on the other slots; shared with C02). Bounded (T3): sum(position) vs the Beancount '
+                'inventory sum, units/cost/value/convert commuting with sum, partition additivity, running balance vs prefix sums with 0-4 references per '
+                'row, balance consulted in WHERE, and a nested scan evaluated between two references of balance in one row.',
+    trusted_base=['Beancount Inventory algebra (add_position / add_inventory / reduce) is assumed, not verified'], assumptions=[],
+)
